@@ -165,6 +165,8 @@ package rr
 //@   assert at "if pav <= pdn20 {" [C10.sac-rain-fills-upper-zone] (pre(uprTensionWater) + pre(uprFreeWater) + pliq - (uprTensionWater + uprFreeWater + pav)) * (1 - adimp - pctim) == e1 + e2
 //@   assert at "roimp := pliq * pctim" [C10.sac-resupply-conserves] (pre(lwrTensionWater) + pre(alzfsc) + pre(alzfpc) - (lwrTensionWater + alzfsc + alzfpc)) * (1 - adimp - pctim) == e3
 //@   loop 2 step [C10.sac-increment-conserves] implies(0 <= pre(alzfpc) && pre(alzfpc) <= alzfpm && 0 <= pre(alzfsc) && pre(alzfsc) <= alzfsm && pre(lwrTensionWater) <= lztwm && pre(uprFreeWater) >= 0 && pinc >= 0 && 0 <= dlzp && dlzp <= 1 && 0 <= dlzs && dlzs <= 1 && 0 <= duz && duz <= 1 && dinc >= 0, post(uprFreeWater) + post(lwrTensionWater) + post(alzfsc) + post(alzfpc) + post(flobf) + post(floin) + post(flosf) == pre(uprFreeWater) + pre(lwrTensionWater) + pre(alzfsc) + pre(alzfpc) + pre(flobf) + pre(floin) + pre(flosf) + pinc)
+//@   loop 2 step [C10.sac-primary-free-water-within-capacity] implies(0 <= pre(alzfpc) && pre(alzfpc) <= alzfpm && 0 <= pre(alzfsc) && pre(alzfsc) <= alzfsm && pre(lwrTensionWater) <= lztwm && pre(uprFreeWater) >= 0 && pinc >= 0 && 0 <= dlzp && dlzp <= 1 && 0 <= dlzs && dlzs <= 1 && 0 <= duz && duz <= 1 && dinc >= 0, post(alzfpc) <= alzfpm)
+//@   loop 2 step [C10.sac-supplemental-free-water-within-capacity] implies(0 <= pre(alzfpc) && pre(alzfpc) <= alzfpm && 0 <= pre(alzfsc) && pre(alzfsc) <= alzfsm && pre(lwrTensionWater) <= lztwm && pre(uprFreeWater) >= 0 && pinc >= 0 && 0 <= dlzp && dlzp <= 1 && 0 <= dlzs && dlzs <= 1 && 0 <= duz && duz <= 1 && dinc >= 0, post(alzfsc) <= alzfsm)
 //@   loop 0 invariant 0 <= timestep && timestep <= nDays
 //@   loop 0 step [C10.sac-components-add-up] surfaceRunoff.at(timestep) + baseflow.at(timestep) == runoff.at(timestep)
 //@   loop 0 step [C10.sac-runoff-nonneg] runoff.at(timestep) >= 0 && baseflow.at(timestep) >= 0
